@@ -189,8 +189,8 @@ func runEnvChild(o opts) error {
 	hostEnv := os.Environ()
 	for i, c := range cs {
 		cfg := &plugin.ClientConfig{
-			HandshakeConfig:     plugin.HandshakeConfig{ProtocolVersion: uint(c.CVersion), MagicCookieKey: c.CookieKey, MagicCookieValue: c.CookieVal},
-			MinPort:             c.MinPort, MaxPort: c.MaxPort,
+			HandshakeConfig: plugin.HandshakeConfig{ProtocolVersion: uint(c.CVersion), MagicCookieKey: c.CookieKey, MagicCookieValue: c.CookieVal},
+			MinPort:         c.MinPort, MaxPort: c.MaxPort,
 			StartTimeout:        3 * time.Second,
 			Logger:              hk.QuietLogger(),
 			SkipHostEnv:         c.Skip,
